@@ -574,6 +574,75 @@ func gen(seed uint64, tier string) {
 		emit("overflow", 1e300, geom.LineString(P(-8e307, 0, 0, 1e306, 8e307, 0, 8e307, 4e307)))
 		emit("overflow", 1e-310, geom.LineString(P(0, 0, 3e-309, 1e-309, 6e-309, 0, 9e-309, 2e-309)))
 	}
+	// class far: integer-grid shapes (smooth runs, lines in general position) scaled by 2^±520 … 2^±900 and
+	// into the subnormal range, tolerance scaled alike.  Every distance test goes through the rescale
+	// branch of distPointToSegment (exact power-of-two scaling), so the tolerance clause is judged with the
+	// real tolerance although the exact model is not tied there (findIntersection overflows/underflows).
+	{
+		exps := []int{520, -520, 600, -600, 900, -900, 1000, -1060}
+		r := vproto.NewRng(seed*7919 + 13) // own stream: the cases behind this block stay what they were
+		nf := 2
+		if tier == "thorough" {
+			nf = 12
+		}
+		for _, e := range exps {
+			f := math.Ldexp(1, e)
+			for c := 0; c < nf; c++ {
+				cls, ps, tol := smoothCase(r, 120+40*c)
+				emit(cls+"@far", tol*f, geom.LineString(scalePts(toPath(ps), f)))
+				gp := gpLine(r, 12+r.Intn(30))
+				emit("gp@far", []float64{1.5, 3.5, 7.5, 12}[r.Intn(4)]*f, geom.LineString(scalePts(toPath(gp), f)))
+			}
+		}
+	}
+	// class detour (self-mutation N3: curves above a size threshold simplified in independent blocks): the
+	// pocket shape A–B–C … F–G with a long zig-zag detour of 30–125 vertices between its bump and its
+	// re-entry, all vertices in general position, so that the chord over the bump and the segment that
+	// crosses it are far apart in the vertex list (n = 40 … 132, straddling 48/64/128).
+	{
+		r := vproto.NewRng(seed*104729 + 7)
+		lens := []int{33, 45, 57, 59, 70, 100, 121, 125}
+		if tier == "thorough" {
+			lens = append(lens, 34, 40, 50, 56, 58, 60, 61, 80, 90, 110, 120, 122, 123, 124)
+		}
+		for _, nd := range lens {
+			for try := 0; try < 50; try++ {
+				j := func(v int64) int64 { return v + int64(r.Range(-9, 9)) }
+				ps := []ip{{j(0), j(0)}, {j(3200), j(320)}, {j(4000), j(0)}, {j(4400), j(-800)}}
+				ok := true
+				add := func(q ip) {
+					if ok && gpOK(ps, q) {
+						ps = append(ps, q)
+					} else {
+						ok = false
+					}
+				}
+				for k := 1; k <= nd && ok; k++ {
+					x := 4400 - int64(k)*4400/int64(nd+1)
+					y := int64(-1200)
+					if k%2 == 0 {
+						y = -1700
+					}
+					placed := false
+					for t := 0; t < 20 && !placed; t++ {
+						q := ip{x + int64(r.Range(-12, 12)), y + int64(r.Range(-90, 90))}
+						if gpOK(ps, q) {
+							ps = append(ps, q)
+							placed = true
+						}
+					}
+					ok = placed
+				}
+				add(ip{j(0), j(-800)})
+				add(ip{j(200), j(-48)})
+				add(ip{j(3800), j(32)})
+				if ok {
+					emit("detour", float64(r.Range(380, 420)), geom.LineString(toPath(ps)))
+					break
+				}
+			}
+		}
+	}
 	// double back-off (seeded C13-d2): an already emitted output segment blocks the longest chord
 	// A–Q, and the next candidate A–P is crossed only by the input segment Q–R that the first
 	// back-off has just un-dropped. The instance, then transformed and jittered copies.
